@@ -245,6 +245,7 @@ def eval_case(ctx, vec, opts, family):
         return True
     cause = _diagnose(vec, opts, exc)
     oj = dict(opts)
+    oj["partition_is_tuple"] = isinstance(opts["partition"], tuple)
     oj["partition"] = [int(p) for p in opts["partition"]]
     case = {"class": "LowRankInitialize", "opt_params": oj, "n": n, "family": family, "cause": cause,
             "partition": oj["partition"], "lr": int(opts.get("lr") or 0), "iso_scheme": oj.get("iso_scheme"),
@@ -354,4 +355,6 @@ def evaluate(ctx, deep):
 
 def replay(ctx, case):
     opts = dict(case["opt_params"])
+    if opts.pop("partition_is_tuple", False):
+        opts["partition"] = tuple(opts["partition"])
     return eval_case(ctx, dec_vec(case["vector"]), opts, case.get("family", "replay"))
